@@ -21,7 +21,8 @@ func checkControllerTable(c *Ctx) {
 		c.undecided(rule, "controller.run/shape", pos, "no actor loop found")
 		return
 	}
-	w := &Walker{P: c.P, Inline: map[*ssa.Function]bool{}}
+	roles := phiRoles(loop.Header, map[string]func(*ssa.Phi) bool{"initialized": phiTypeIs("bool")})
+	w := &Walker{P: c.P, Inline: map[*ssa.Function]bool{}, PhiNames: roles}
 	paths := w.IterRegion(fn, loop)
 	if w.Truncated {
 		c.undecided(rule, "controller.run/too-many-paths", pos, "path limit exceeded")
@@ -343,7 +344,7 @@ func checkControllerTable(c *Ctx) {
 	rows := c.runTable(ts, "controller.run", pos, paths)
 	c.notes = append(c.notes, fmt.Sprintf("controller.run: %d iteration paths, %d abstract rows", len(paths), rows))
 	// initial state
-	pre := (&Walker{P: c.P}).PreludeRegion(fn, loop)
+	pre := (&Walker{P: c.P, PhiNames: roles}).PreludeRegion(fn, loop)
 	c.paths += len(pre)
 	okk := len(pre) == 1 && pre[0].PhiNext["initialized"] != nil && pre[0].PhiNext["initialized"].Key() == "false"
 	if okk {
